@@ -246,13 +246,23 @@ void compare_surface(SOH& h, const Ref& r, const char* after)
         Res e2 = ref_apply(rc, Op{FINDPRED, (int8_t)sel, 0}, 0);
         Res g2 = real_apply(h, Op{FINDPRED, (int8_t)sel, 0}, 0);
         MC_CHECK(e2.v == g2.v, "findpred-mismatch", "after %s: findObject(pred %d) gives %d, reference %d", after, sel, g2.v, e2.v);
-        if (!any_taint(r))
-            for (int t = 1; t <= 2; t++) {
-                Res e3 = ref_apply(rc, Op{FINDPRED_T, (int8_t)sel, (int8_t)t}, 0);
-                Res g3 = real_apply(h, Op{FINDPRED_T, (int8_t)sel, (int8_t)t}, 0);
+        for (int t = 1; t <= 2; t++) {
+            Res e3 = ref_apply(rc, Op{FINDPRED_T, (int8_t)sel, (int8_t)t}, 0);
+            Res g3 = real_apply(h, Op{FINDPRED_T, (int8_t)sel, (int8_t)t}, 0);
+            if (!any_taint(r)) {
                 MC_CHECK(e3.v == g3.v, "findpredtype-mismatch", "after %s: findObject(pred %d,type %d) gives %d, reference %d", after, sel,
                          t, g3.v, e3.v);
+            } else if (g3.v != 0) {
+                // tags were added for a name that was not stored: which entries carry the tag is unspecified, but the
+                // call is still made (memory safety) and whatever it returns must be a stored object the predicate accepts
+                bool stored = false;
+                for (int n = 0; n < NN; n++)
+                    if (r.obj[n] == g3.v) stored = true;
+                MC_CHECK(stored && pred_match(sel, g3.v), "findpredtype-mismatch",
+                         "after %s: findObject(pred %d,type %d) returned object %d which is not stored / not accepted by the predicate", after,
+                         sel, t, g3.v);
             }
+        }
     }
 }
 
@@ -283,7 +293,10 @@ bool lin_search(int mask, const Ref& st, int n)
         if (!ready) continue;
         Ref ns = st;
         Res e = ref_apply(ns, g_hist[i].op, g_hist[i].newid);
-        if (!res_equal(g_hist[i].op, e, g_hist[i].res)) continue;
+        const Op& op = g_hist[i].op;
+        // tags added for a name that was not stored at that moment: tag queries are unspecified from then on
+        bool unspecified = (op.k == CHECK && st.tainted[op.a]) || (op.k == FINDPRED_T && any_taint(st));
+        if (!unspecified && !res_equal(op, e, g_hist[i].res)) continue;
         if (lin_search(mask | (1 << i), ns, n)) return true;
     }
     return false;
@@ -380,7 +393,7 @@ void make_items(const Options& o, std::vector<Item>& items)
     // ---- concurrent part
     std::vector<Op> al = {Op{ADD, 0, 0},      Op{ADDT, 0, 1},     Op{ADDT, 2, 1},       Op{COPY, 0, 1},   Op{REMOVE, 0, 0},
                           Op{RMPRED, 1, 0},   Op{RMPRED, 3, 0},   Op{FIND, 0, 0},       Op{FINDPRED, 3, 0}, Op{FINDPRED_T, 3, 1},
-                          Op{CHECK, 0, 1},    Op{GETOBJS, 0, 0},  Op{EMPTY, 0, 0}};
+                          Op{CHECK, 0, 1},    Op{GETOBJS, 0, 0},  Op{EMPTY, 0, 0},    Op{ADDTYPE, 0, 1}};
     auto seq1 = hx::sequences((int)al.size(), 1);
     auto seq2 = hx::sequences((int)al.size(), 2);
     auto conv = [&](const std::vector<int>& s) {
